@@ -96,7 +96,7 @@ func zzRoundTrip(sent []zzPkt, cut int, idle int) error {
 func TestVerifBounded(t *testing.T) {
 	maxLen := 3
 	if os.Getenv("VERIF_TIER") == "thorough" {
-		maxLen = 4
+		maxLen = 6
 	}
 	allCuts := os.Getenv("VERIF_C25_CUTS") == "all"
 	frames := []byte{FRAME_DIAGNOSTIC, 0x21, 0x45, 0x4f, 0x60, 0x6f, 0x44, 0x50}
@@ -137,11 +137,15 @@ func TestVerifBounded(t *testing.T) {
 			}
 		}
 	}
-	small := zzPayloads(2)
+	nSmall := 2
+	if os.Getenv("VERIF_TIER") == "thorough" {
+		nSmall = 3
+	}
+	small := zzPayloads(nSmall)
 	for _, p1 := range small {
 		for _, p2 := range small {
 			check([]zzPkt{{FRAME_DIAGNOSTIC, p1}, {0x21, p2}})
 		}
 	}
-	fmt.Printf("BOUNDED {\"cases\": %d, \"bound\": \"one packet: 8 frame types x payloads of 1..%d bytes over {END,ESC,ESC_END,ESC_ESC,'A',0}; two packets: payloads of 1..2 bytes; every cut of the stream into two reads with 0..2 idle (0, io.EOF) reads at the cut, cuts restricted to positions between ordinary stream bytes unless VERIF_C25_CUTS=all\"}\n", cases, maxLen)
+	fmt.Printf("BOUNDED {\"cases\": %d, \"bound\": \"one packet: 8 frame types x payloads of 1..%d bytes over {END,ESC,ESC_END,ESC_ESC,'A',0}; two packets: payloads of 1..%d bytes; every cut of the stream into two reads with 0..2 idle (0, io.EOF) reads at the cut, cuts restricted to positions between ordinary stream bytes unless VERIF_C25_CUTS=all\"}\n", cases, maxLen, nSmall)
 }
